@@ -1848,13 +1848,14 @@ class unyt_array(np.ndarray):
             if u.dimensions is angle and ufunc in trigonometric_operators:
                 # ensure np.sin(90*degrees) works as expected
                 inp = inp.in_units("radian").v
-            # evaluate the ufunc
-            out_arr = func(np.asarray(inp), out=out_func, **kwargs)
+            # get the unit of the result before evaluating, so that an
+            # operation the unit rule refuses leaves out= untouched
             if ufunc in (multiply, divide) and method == "reduce":
                 mul, unit = _apply_power_mapping(ufunc, u, inp.size, inp.shape, kwargs)
             else:
-                # get unit of result
                 mul, unit = self._ufunc_registry[ufunc](u)
+            # evaluate the ufunc
+            out_arr = func(np.asarray(inp), out=out_func, **kwargs)
             # use type(self) here so we can support user-defined
             # subclasses of unyt_array
             ret_class = type(self)
@@ -2001,6 +2002,17 @@ class unyt_array(np.ndarray):
                         inp1 = np.asarray(inp1, dtype=new_dtype) * conv
             # get the unit of the result
             mul, unit = unit_operator(u0, u1)
+            if unit_operator in (_multiply_units, _divide_units) and (
+                u0.base_offset
+                and u0.dimensions is temperature
+                or u1.base_offset
+                and u1.dimensions is temperature
+            ):
+                # refuse before evaluating, so that out= is left untouched
+                raise InvalidUnitOperation(
+                    "Quantities with units of Fahrenheit or Celsius "
+                    "cannot be multiplied, divided, subtracted or added."
+                )
             # actually evaluate the ufunc
             out_arr = func(
                 inp0.view(np.ndarray), inp1.view(np.ndarray), out=out_func, **kwargs
@@ -2013,16 +2025,6 @@ class unyt_array(np.ndarray):
                                 out_arr.view(np.ndarray), unit.base_value, out=out_func
                             )
                             unit = Unit(registry=unit.registry)
-                if (
-                    u0.base_offset
-                    and u0.dimensions is temperature
-                    or u1.base_offset
-                    and u1.dimensions is temperature
-                ):
-                    raise InvalidUnitOperation(
-                        "Quantities with units of Fahrenheit or Celsius "
-                        "cannot be multiplied, divided, subtracted or added."
-                    )
         else:
             if ufunc is clip:
                 inp = []
